@@ -340,7 +340,112 @@ def reevaluate(ctx, n):
             ctx.disagree("C05:reevaluate", desc, float(np.einsum("ij,ij->", A, B)), r[1:3] if r[0] != "ok" else (r[1][1].tensor_shape, np.asarray(r[1][1].array).tolist()), replay=[desc])
 
 
+def copy_stream(ctx, n):
+    """`TensorDiagram.copy()` is an independent diagram: an edge added to the copy leaves the original's value unchanged (and vice
+    versa); compared with `numpy.einsum` on the operand arrays"""
+    from geometer.base import Tensor, TensorDiagram
+    rng = ctx.rng
+    for k in range(n):
+        dim = rng.choice([2, 3])
+        A = Tensor(np.array([rng.randint(-3, 3) for _ in range(dim * dim)]).reshape(dim, dim), covariant=[0])
+        B = Tensor(np.array([rng.randint(-3, 3) for _ in range(dim * dim)]).reshape(dim, dim), covariant=[0])
+        x = Tensor(np.array([rng.randint(-3, 3) for _ in range(dim)]), covariant=False)
+        y = Tensor(np.array([rng.randint(-3, 3) for _ in range(dim)]), covariant=True)
+        mode = rng.choice(["nodes-only", "one-edge"])
+        which = rng.choice(["copy", "original"])
+        desc = f"diagram copy: A {A.array.tolist()} B {B.array.tolist()} x {x.array.tolist()} y {y.array.tolist()} start={mode} extended={which}"
+        ctx.case(desc)
+        ctx.count("diagram-copy")
+        def run():
+            d = TensorDiagram()
+            if mode == "nodes-only":
+                d.add_node(A); d.add_node(B)
+                exp = np.einsum("ij,kl->ikjl", A.array, B.array)       # covariant first: A0 B0 A1 B1
+            else:
+                d.add_edge(A, B)
+                # edge (A, B): first covariant of A (axis 0) with first contravariant of B (axis 1); free: B0 (cov), A1 (con)
+                exp = np.einsum("ai,ka->ki", A.array, B.array)
+            c = d.copy()
+            ext, keep = (c, d) if which == "copy" else (d, c)
+            if mode == "nodes-only":
+                ext.add_edge(A, x)       # consumes the covariant index of A -- only in `ext`
+                ext.add_edge(y, B)
+            else:
+                ext.add_edge(B, x)       # consumes the covariant index of B that the first edge left over
+            return keep.calculate(), exp
+        r = call_impl(run)
+        ok = r[0] == "ok" and r[1][0].array.shape == r[1][1].shape and np.array_equal(r[1][0].array, r[1][1])
+        if not ok:
+            ctx.disagree("C05:diagram-copy", desc, "value of the diagram before it was copied / of the untouched copy",
+                         (r[1][0].array.shape, r[1][0].array.tolist()) if r[0] == "ok" else r[1:3], replay=[desc])
+
+
+def high_rank_order(ctx):
+    """tensors with nine and more indices: an edge still takes the FIRST (lowest) unused covariant / contravariant index
+    (Python's set iteration order is not ascending any more for such index sets, e.g. list({1, 8}) == [8, 1])"""
+    from geometer.base import Tensor, TensorDiagram
+    rng = ctx.rng
+    for cov in ([1, 8], [0, 8], [8, 9, 1], [3, 8, 16 - 7]):
+        rank = max(cov) + 1
+        for variance in ("cov", "con"):
+            arr = np.array([rng.randint(-2, 2) for _ in range(2 ** rank)]).reshape((2,) * rank)
+            others = [i for i in range(rank) if i not in cov]
+            T = Tensor(arr, covariant=cov if variance == "cov" else others)
+            v = Tensor(np.array([1, 10]), covariant=(variance != "cov"))
+            desc = f"rank {rank} tensor, {variance} indices {cov}: edge with a vector contracts index {min(cov)}"
+            ctx.case(desc)
+            ctx.count("high-rank-order")
+            r = call_impl(lambda: TensorDiagram((T, v) if variance == "cov" else (v, T)).calculate())
+            exp = np.tensordot(arr, v.array, axes=([min(cov)], [0]))
+            # result axes: covariant first, contravariant after, each group in ascending order of the original axis
+            rest = [i for i in range(rank) if i != min(cov)]
+            cov_axes = [i for i in rest if (i in cov) == (variance == "cov")]
+            con_axes = [i for i in rest if i not in cov_axes]
+            order = (cov_axes + con_axes) if variance == "cov" else (con_axes + cov_axes) if False else None
+            # the (1-tensor) vector has no index left; T's unused indices: covariant ones first
+            t_cov = [i for i in rest if i in (cov if variance == "cov" else others)]
+            t_con = [i for i in rest if i not in t_cov]
+            perm = [rest.index(i) for i in t_cov + t_con]
+            exp = np.transpose(exp, perm)
+            ok = r[0] == "ok" and r[1].array.shape == exp.shape and np.array_equal(r[1].array, exp)
+            if not ok:
+                ctx.disagree("C05:high-rank:first-unused-index", desc, "contraction over the lowest unused index",
+                             "another index was contracted" if r[0] == "ok" else r[1:3], replay=[desc])
+
+
+def eps_instances_independent(ctx, prefix="C05"):
+    """item assignment on one Levi-Civita / Kronecker tensor object does not change the tensors constructed afterwards
+    (the cached arrays are not handed out writable)"""
+    from geometer.base import LeviCivitaTensor, KroneckerDelta
+    for name, make, idx in (("eps3", lambda: LeviCivitaTensor(3), (0, 1, 2)), ("eps4", lambda: LeviCivitaTensor(4, False), (0, 1, 2, 3)),
+                            ("delta3_1", lambda: KroneckerDelta(3), (0, 0)), ("delta3_2", lambda: KroneckerDelta(3, 2), (0, 1, 0, 1)),
+                            ("delta3_3", lambda: KroneckerDelta(3, 3), (0, 1, 2, 0, 1, 2))):
+        desc = f"{name}: t = {name}(); t[{idx}] = 5; then a new {name}()"
+        ctx.case(desc)
+        ctx.count("eps-delta-instances")
+        def run():
+            t = make()
+            old = t.array[idx]
+            try:
+                t[idx] = 5
+            except (ValueError, TypeError):
+                return int(make().array[idx]), int(old)     # a refused assignment is fine as well
+            fresh = make()
+            val = int(fresh.array[idx])
+            try:
+                t[idx] = old      # leave the process-wide cache as we found it, whatever the library does
+            except (ValueError, TypeError):
+                pass
+            return val, int(old)
+        r = call_impl(run)
+        if r[0] != "ok" or r[1][0] != r[1][1]:
+            ctx.disagree(f"{prefix}:eps-delta:shared-instance", desc, "entry of the definition", r[1] if r[0] == "ok" else r[1:3], replay=[desc])
+
+
 def correspondence(ctx):
+    copy_stream(ctx, ctx.budget(20, 200))
+    high_rank_order(ctx)
+    eps_instances_independent(ctx)
     reevaluate(ctx, ctx.budget(20, 200))
     loop_edges(ctx, ctx.budget(30, 300))
     refused_edge_stream(ctx, ctx.budget(30, 300))
